@@ -41,6 +41,14 @@ def run(tier):
     if rej:
         rej["trace"] = tr
         ck.fail("trace rejected by Stream.tla", rej)
+    def _corrupt_stream(evs):
+        for e in evs:
+            if e.get("ev") == "pull" and e.get("mut") == "none" and e.get("res") == "Ok":
+                e["res"] = "Err"; e["tag"] = -1
+                return "a genuine in-order pull is recorded as rejected"
+        return None
+    if not rej:
+        binding_selftest(ck, "StreamTrace", None, tr, _corrupt_stream, "stream trace", timeout=1800)
     # 5. the object API as a user holds it (constructors choose the header; every container), both directions vs libsodium
     for cfg in ["stable", "nightly"]:
         sp = os.path.join(wd, "session_%s.json" % cfg)
